@@ -225,6 +225,13 @@ def dispatch (op : String) (j : Json) : Except String Json := do
         | _ => .error "rule")
       let inputs ← (← getArr (← field j "inputs")).mapM getNats
       return obj [("out", Json.arr (inputs.map (fun i => Json.arr ((shapeLig rules (i.length + 1) i).map (fun g => jI (Int.ofNat g))).toArray)).toArray)]
+  | "apply-paint" =>
+      let p ← getCP (← field j "paint")
+      let U ← getAff (← field j "U")
+      match applyPaintFill U Aff.id p with
+      | some (.solid c a) => return obj [("fill", obj [("k", "solid"), ("c", jI (Int.ofNat c)), ("a", jQ a)])]
+      | some (.lin g l) => return obj [("fill", obj [("k", "lin"), ("g", jQs [g.p0.x, g.p0.y, g.p1.x, g.p1.y, g.p2.x, g.p2.y]), ("l", jI (Int.ofNat l))])]
+      | none => return obj [("fill", Json.null)]
   | "colr-to-svg" =>
       let p ← getCP (← field j "paint")
       let V ← getAff (← field j "V")
